@@ -55,7 +55,7 @@ def lg_davies(I, z, A, C):
 
 # formula -> charge, typed by hand (NOT parsed by chempy)
 IONS = [('Na+', 1), ('K+', 1), ('H+', 1), ('NH4+', 1), ('Li+', 1), ('Ag+', 1), ('Cl-', -1), ('OH-', -1), ('NO3-', -1), ('F-', -1),
-        ('HCO3-', -1), ('Mg+2', 2), ('Ca+2', 2), ('Fe+2', 2), ('Cu+2', 2), ('UO2+2', 2), ('SO4-2', -2), ('CO3-2', -2), ('HPO4-2', -2),
+        ('HCO3-', -1), ('ClO4-', -1), ('Mg+2', 2), ('Ca+2', 2), ('Fe+2', 2), ('Cu+2', 2), ('UO2+2', 2), ('SO4-2', -2), ('CO3-2', -2), ('HPO4-2', -2),
         ('S-2', -2), ('Al+3', 3), ('Fe+3', 3), ('La+3', 3), ('PO4-3', -3), ('Fe(CN)6-3', -3), ('Th+4', 4), ('Ce+4', 4), ('Zr+4', 4),
         ('Fe(CN)6-4', -4), ('P2O7-4', -4), ('H2O', 0), ('NH3', 0), ('CO2(aq)', 0), ('e-', -1), ('Na+(aq)', 1), ('SO4-2(aq)', -2),
         ('alpha-Al+3', 3)]
@@ -181,8 +181,9 @@ class C18(Property):
     float_tol = 1e-9
     rule = ('ion sets of 1..8 entries with charges -4..4 (0 included), molalities log-uniform over 1e-9..1e3 (12 decades) as exact '
             'decimals (Fractions), floats (dyadic in the neutral cases so that float sums are exact), one quantities array, a list of scalar Quantity objects or a dict of them, in molal / mmol/kg / mol/g / umol/g; 45 % exactly neutral, 15 % inside or '
-            'next to the tolerance band (|net| = 0.3, 0.5, 2, 10 x tot*1e-14), rest not neutral; list form, dict form keyed by 37 formulas '
-            '(states, prefixes, bracketed and repeated-sign charges), warn on/off; malformed: different lengths, no entries, empty mapping, '
+            'next to the tolerance band (|net| = 0.3, 0.5, 2, 10 x tot*1e-14), rest not neutral; list form, dict form keyed by 38 formulas '
+            '(states, prefixes, bracketed charges), 55 % of the dict cases with `substances=` (string of names or mapping of Substance objects; '
+            'same order / permuted / superset / one key missing) or `substance_factory=` (labels instead of formulas), warn on/off; malformed: different lengths, no entries, empty mapping, '
             'keys with blanks / empty / unknown element; T 250..650 K, eps_r 5..100, rho 500..1500 kg/m3 (given in 4 density units), b0 '
             '0.1..10 mol/kg or default; model unit system with metre, kelvin, mole, kilogram, second, ampere magnitudes log-uniform in '
             '1e-3..1e3; log-gamma: I over 1e-9..1e3 and 0, z -4..4, a 0 or 1e-10..1e-9 m, C in {0, -0.3, random}; activity products with '
@@ -197,6 +198,19 @@ class C18(Property):
                    'formula parser (charges of the dict form) is the C01 model; str.split() is modelled for ASCII white space',
                    'Mathlib Real.rpow / Real.sqrt / Real.exp / Real.pi as the meaning of ** 0.5, ** (one/2), exp, pi',
                    'oracle constants typed from CODATA 2006; textbook-vs-code tolerance 1e-6 (R vs k_B*N_A differ by 5.7e-8 in quantities)')
+    clauses_without_theorem = (
+        'molalities "with units": Quantity inputs (array, list or dict of scalar quantities) are decided by correspondence + oracle only; '
+        'the theorems stand in with linear_scaling (change of the molality unit) and the unit-system theorems of A and B',
+        'the real quantities package (unit algebra, simplification, in-place arithmetic): modelled as multiplication by unit magnitudes',
+        'control flow of ionic_strength (length check, accumulation loops, dict branch, `if warn`) and the final `return d <= lim` of allclose '
+        'are hand-modelled (pinned anchors + guards); only the expressions b*z**2, b*z, tot/2, tot*0, tot*1e-14, abs(a-b), abs(a)*rtol+atol '
+        'are translated from the source',
+        'the loops of the three activity products and the two callable classes are hand-modelled (nr * log_gamma(z[idx])): correspondence + oracle',
+        'permutation of the dict form: follows from perm_invariant + the by-key theorems but is not stated separately',
+        'backend= of A / B / log-gamma (numpy, math, sympy): the translator maps every backend to the same Lean text; oracle uses the default backend only',
+        'inputs are not modified and repeated calls reproduce (histories): oracle only — the functional model cannot express aliasing',
+        'values of the physical constants: read from the installed quantities, not derived',
+    )
     anchors = (('chempy/electrolytes.py', 'ionic_strength'), ('chempy/units.py', 'allclose'),
                ('chempy/electrolytes.py', 'limiting_activity_product'), ('chempy/electrolytes.py', 'extended_activity_product'),
                ('chempy/electrolytes.py', 'davies_activity_product'), ('chempy/electrolytes.py', '_ActivityProductBase'),
@@ -276,6 +290,9 @@ class C18(Property):
             if not keys:
                 keys, zs, bs = ['Na+'], [1], bs[:1] or [Fraction(1)]
             c['keys'] = keys
+            zs = zs[:len(keys)]
+            bs = bs[:len(keys)]
+            self._gen_substances(rng, c, zs)
         c['z'] = zs
         if num == 'rat':
             c['b'] = [rat_json(b) for b in bs]
@@ -289,6 +306,61 @@ class C18(Property):
         c['perm'] = perm
         c['scale'] = rat_json(Fraction(self._dec(rng, 1e-3, 1e3, 3)))
         return c
+
+    LABELS = ['ion_1', 'ion_2', 'cation', 'anion', 'X', 'Y', 'M(aq)', 'L', 'iron(III)', 'sulfate', 'a', 'b+']
+    SPACED = ['ion 1', 'hexa aqua iron', 'my ion\t2']
+
+    def _gen_substances(self, rng, c, zs):
+        """the documented `substances=` (mapping name -> Substance, or a string of names) and `substance_factory=` arguments:
+        same order / another order / a superset / a key missing; keys are formulas or free labels whose charge only the
+        mapping (or the factory) knows"""
+        r = rng.random()
+        keys = c['keys']
+        if r < 0.45:
+            return
+        extra_pool = [f for f, _ in IONS if f not in keys]
+        mode = rng.choice(['same', 'perm', 'perm', 'super', 'super', 'missing'])
+
+        def arrange(pairs, extras):
+            pairs = list(pairs)
+            if mode in ('perm', 'super', 'missing'):
+                rng.shuffle(pairs)
+            if mode == 'super':
+                for e in extras:
+                    pairs.insert(rng.randint(0, len(pairs)), e)
+            if mode == 'missing':
+                pairs = [p for p in pairs if p[0] != keys[-1]]
+            return pairs
+
+        kind = rng.choice(['names', 'mapping-formula', 'mapping-label', 'factory-label'])
+        extras = [(f, ION_CHARGE[f]) for f in rng.sample(extra_pool, rng.randint(1, 3))]
+        if kind == 'names':
+            pairs = arrange(zip(keys, zs), extras)
+            seps = [rng.choice([' ', '  ', '\t', '\n', ' \t ']) for _ in pairs]
+            c['subs'] = {'kind': 'names', 's': ''.join(k + sp for (k, _), sp in zip(pairs, seps)).rstrip() if rng.random() < 0.7
+                         else ' ' + ''.join(k + sp for (k, _), sp in zip(pairs, seps))}
+        elif kind == 'mapping-formula':
+            c['subs'] = {'kind': 'mapping', 't': [[k, z] for k, z in arrange(zip(keys, zs), extras)], 'via': 'formula'}
+        else:
+            pool = self.LABELS + (self.SPACED if kind == 'mapping-label' else [])
+            labels = rng.sample(pool, len(keys)) if len(keys) <= len(pool) else None
+            if labels is None:
+                return
+            c['keys'] = labels
+            c['alias'] = dict(zip(labels, zs))
+            keys = labels
+            xl = [(l, rng.choice([-2, -1, 1, 2, 3])) for l in self.LABELS if l not in labels][:2]
+            if kind == 'mapping-label':
+                c['subs'] = {'kind': 'mapping', 't': [[k, z] for k, z in arrange(zip(labels, zs), xl)], 'via': 'charge'}
+            else:
+                c['factory'] = [[k, z] for k, z in arrange(zip(labels, zs), xl)]
+                if rng.random() < 0.4 and mode != 'missing':
+                    names = [k for k, _ in c['factory']]
+                    c['subs'] = {'kind': 'names', 's': ' '.join(names)}
+        c['smode'] = kind + ':' + mode
+        if mode == 'missing':
+            c['target'] = 'malformed'
+            c['mal'] = 'key missing from substances'
 
     def _gen_is_malformed(self, rng, c):
         c['target'] = 'malformed'
@@ -390,6 +462,10 @@ class C18(Property):
                   'b': [enc(v) for v in c['b']], 'case': c, 'kind': kd}
             if 'dict' in c['form']:
                 mc['keys'] = c['keys']
+                if c.get('subs'):
+                    mc['subs'] = {k: v for k, v in c['subs'].items() if k != 'via'}
+                if c.get('factory') is not None:
+                    mc['factory'] = c['factory']
             else:
                 mc['z'] = [int(z) if c['num'] == 'rat' else f2b(z) for z in c['z']]
             return mc
@@ -492,8 +568,29 @@ class C18(Property):
         from chempy.electrolytes import ionic_strength
         run = run or (lambda f, *a, **k: captured(f, *a, **k) + (None,))
         if charges is None:
-            return run(ionic_strength, arg, warn=c['warn'])
+            return run(ionic_strength, arg, warn=c['warn'], **self._subs_kwargs(c))
         return run(ionic_strength, arg, charges, warn=c['warn'])
+
+    @staticmethod
+    def _subs_kwargs(c):
+        """the `substances=` / `substance_factory=` keyword arguments of the case (fresh objects per call)"""
+        from collections import OrderedDict
+        from chempy import Substance
+        kw = {}
+        mk = lambda name, z: Substance(name, composition=({0: z} if z else {}))
+        sub = c.get('subs')
+        if sub:
+            if sub['kind'] == 'names':
+                kw['substances'] = sub['s']
+            elif sub['kind'] == 'mapping':
+                if sub.get('via') == 'formula':
+                    kw['substances'] = OrderedDict((k, Substance.from_formula(k)) for k, _ in sub['t'])
+                else:
+                    kw['substances'] = OrderedDict((k, mk(k, z)) for k, z in sub['t'])
+        if c.get('factory') is not None:
+            table = dict((k, z) for k, z in c['factory'])
+            kw['substance_factory'] = lambda name: mk(name, table[name])
+        return kw
 
     def _call_is(self, c, b=None, z=None, keys=None):
         """real ionic_strength on the case (optionally with other entries) -> (value | exception, warned)"""
@@ -614,11 +711,16 @@ class C18(Property):
         except Exception as e:
             return 'raised:' + exc_name(e) + ':' + str(e)[:80]
 
+    @staticmethod
+    def _charge_of(c, key):
+        """charge of the entry keyed `key`, from the hand-typed table (formulas) or from the labels of the case — by KEY"""
+        return c['alias'][key] if 'alias' in c else ION_CHARGE[key]
+
     def _near_threshold(self, c):
         """exact case whose |net| is within 1e-6 relative of the coded threshold (float evaluation of the threshold in Python)"""
         try:
             if 'dict' in c['form']:
-                zs = [ION_CHARGE[k] for k in c['keys']]
+                zs = [self._charge_of(c, k) for k in c['keys']]
             else:
                 zs = c['z']
             bs = [fr(v) for v in c['b']]
@@ -682,7 +784,7 @@ class C18(Property):
             return None
         if isinstance(r, Exception):
             return 'ionic_strength raised %s: %s' % (exc_name(r), str(r)[:80])
-        zs = [ION_CHARGE[k] for k in c['keys']] if 'dict' in c['form'] else c['z']
+        zs = [self._charge_of(c, k) for k in c['keys']] if 'dict' in c['form'] else c['z']
         exact = c['num'] == 'rat'
         exactish = exact or bool(c.get('dyadic'))       # float evaluation of the sums is exact as well
         bs = [fr(v) if exact else Fraction(float(v)) for v in c['b']]
@@ -856,7 +958,8 @@ class C18(Property):
     def classify(self, c):
         kd = c['kind']
         if kd == 'is':
-            return 'is:%s:%s:%s%s' % (c['form'], c['num'], c['target'].split('*')[0], '' if c['warn'] else ':nowarn')
+            return 'is:%s:%s:%s%s%s' % (c['form'], c['num'], c['target'].split('*')[0], '' if c['warn'] else ':nowarn',
+                                        (':subs=' + c['smode']) if c.get('smode') else '')
         if kd == 'ab':
             return 'ab:%s:%s' % (c['which'], c['path'])
         if kd == 'lg':
